@@ -26,6 +26,9 @@ pub enum RogueCommit {
     SelfUpdate,
     /// path update whose new leaf carries another member's Nostr identity
     ForeignIdentity,
+    /// path update whose new leaf carries something that is not a 32-byte key at all: empty (0),
+    /// the own key cut to 31 bytes (1), the own key as 64 hex characters (2), 33 bytes (3)
+    MalformedIdentity(u8),
     /// remove + path update
     Mixed,
     /// commit whatever sits in the own proposal queue (by reference)
@@ -183,6 +186,25 @@ pub fn build_commit<S: MdkStorageProvider>(
         RogueCommit::ForeignIdentity => {
             let t = target_identity_hex.ok_or("no target")?;
             let id = hex::decode(t).map_err(|e| e.to_string())?;
+            let cwk = CredentialWithKey {
+                credential: BasicCredential::new(id).into(),
+                signature_key: signer.public().into(),
+            };
+            b = b
+                .force_self_update(true)
+                .leaf_node_parameters(LeafNodeParameters::builder().with_credential_with_key(cwk).build());
+        }
+        RogueCommit::MalformedIdentity(how) => {
+            let id: Vec<u8> = match how % 4 {
+                0 => vec![],
+                1 => own_pk[..31.min(own_pk.len())].to_vec(),
+                2 => hex::encode(&own_pk).into_bytes(),
+                _ => {
+                    let mut v = own_pk.clone();
+                    v.push(7);
+                    v
+                }
+            };
             let cwk = CredentialWithKey {
                 credential: BasicCredential::new(id).into(),
                 signature_key: signer.public().into(),
